@@ -41,3 +41,13 @@ def worker_env():
     env["MKL_NUM_THREADS"] = "1"
     env["PYTHONPATH"] = VERIF + os.pathsep + env.get("PYTHONPATH", "")
     return env
+
+
+def set_process_tz(name):
+    """Switch the interpreter's local time zone (TZ + tzset): results about aware datetimes must not depend on it."""
+    import time
+    if name is None:
+        os.environ.pop("TZ", None)
+    else:
+        os.environ["TZ"] = name
+    time.tzset()
